@@ -57,7 +57,14 @@ def bytes_case(b, stack, bits, klass):
         for tok in fs.split():
             a, pos, r_ = tok.split('/')
             fields.append(((a[0], int(a[1:])), int(pos), r_))
-        return ('OK', (tuple(fields), pl.strip()))
+        m = ('OK', (tuple(fields), pl.strip()))
+        if m != out and out[0] == 'OK':
+            from schc_run import same_denotation
+            mf, of = m[1][0], out[1][0]
+            if len(mf) == len(of) and all(x[:2] == y[:2] and same_denotation(x[2], y[2]) for x, y in zip(mf, of)) and same_denotation(m[1][1], out[1][1]):
+                b.rep.drift += 1      # same fields bit for bit, another padding side somewhere: representation drift
+                return out
+        return m
     b.add('bytes:' + klass.split(':')[0], line, out, parse, None, dict(layer='parser-bytes', stack=stack, bits=bits if len(bits) < 4000 else bits[:4000] + '...'), key=line)
 
 
